@@ -1,7 +1,7 @@
 """Triage tool (not a check): cross-validates betterproto's JSON for maps of every key/value kind and wrappers
 against google.protobuf.json_format, on concrete samples.  Used to confirm the J1/J2 findings and their repair."""
 import sys, json, math
-sys.path.insert(0, "/repo/src")
+sys.path.insert(0, __import__("os").environ.get("REPO_SRC", "/repo/src"))
 from dataclasses import dataclass, field, make_dataclass
 from typing import Dict, Optional, List
 from datetime import datetime, timedelta, timezone
